@@ -170,7 +170,19 @@ def check(spec, ctx):
         ctx.fail("two returned sequences share an identifier", spec, None, None, kind="uuid")
 
 
+def enum_long_chains(tier):
+    """Chains of a thousand and more events, each similar to the next one only (a long bout of calls): one component, found without
+    running out of stack.  Also two such chains interleaved."""
+    sizes = [1100, 1500] if tier == "quick" else [1100, 1500, 2500, 4000]
+    out = []
+    for n in sizes:
+        out.append({"n": n, "edges": [[i, i + 1] for i in range(n - 1)]})
+        out.append({"n": n, "edges": [[i, i + 2] for i in range(n - 2)]})
+    return out
+
+
 SUBS = [
+    Sub("long_chains", check, enumerate=enum_long_chains, min_nontrivial=0.0),
     Sub("all_graphs_le6", check, enumerate=enum_small, exhaustive_note="all 33868 symmetric relations on 0..6 labelled nodes", min_nontrivial=0.0),
     Sub("random_graphs", check, strategy=random_graph, quick=2000, thorough=60000, min_nontrivial=0.2),
 ]
